@@ -556,15 +556,29 @@ def build(repo=None):
             return [(s_ok, Opaque("mapped")), (s_bad, Raised(Exc("ValueError", origin="tree_map")))]
 
         def m_any(e, s, g, node):
+            # any(not has_structure(x) for x in <leaves of the tree handed to tree_leaves(.., is_leaf=has_structure)>): the test is about
+            # the structure of THAT tree -- it must be the dummy tree rebuilt from the structure this check flattened to
             ns = s.env.get("named_structure")
             s1 = s.clone()
-            s1.ghost["suffix_args"] = (e.as_u(s, ns), the_structure) if ns is not None else None
-            return [(s1, Z("bool", SuffixBad(e.as_u(s, ns) if ns is not None else Leaf0, the_structure)))]
+            st_tree = s.ghost.get("suffix_tree")
+            it_ok = False
+            gn = getattr(g, "node", None)
+            if isinstance(gn, ast.GeneratorExp) and len(gn.generators) == 1 and isinstance(gn.generators[0].iter, ast.Name):
+                itv = (g.closure or {}).get(gn.generators[0].iter.id, s.env.get(gn.generators[0].iter.id))
+                it_ok = isinstance(itv, Opaque) and itv.tag == "dummy_leaves"
+            over = StructOf(st_tree) if (st_tree is not None and it_ok) else z3.FreshConst(U, "structure_of_whatever_is_iterated")
+            s1.ghost["suffix_args"] = (e.as_u(s, ns), over) if ns is not None else None
+            return [(s1, Z("bool", SuffixBad(e.as_u(s, ns) if ns is not None else Leaf0, over)))]
+
+        def m_tree_leaves2(e, s, a, kw, n):
+            s1 = s.clone()
+            s1.ghost["suffix_tree"] = e.as_u(s, a[0]) if a else None
+            return [(s1, Opaque("dummy_leaves"))]
 
         eng.globals["jtu"] = Opaque("global:jtu", z3.Const("global_jtu", U))
         eng.globals.update({"jtu.tree_unflatten": Fn("tree_unflatten", model=m_tree_unflatten), "jtu.tree_map": Fn("tree_map", model=m_tree_map),
                             "jtu.tree_structure": Fn("tree_structure", model=lambda e, s, a, kw, n: [(s, treedef(StructOf(e.as_u(s, a[0]))))]),
-                            "jtu.tree_leaves": Fn("tree_leaves", model=lambda e, s, a, kw, n: [(s, Opaque("dummy_leaves"))])})
+                            "jtu.tree_leaves": Fn("tree_leaves", model=m_tree_leaves2)})
         eng.method_models["any()"] = m_any
         eng.attr_models["num_leaves"] = lambda e, s, recv, node: [(s, Z("int", NumLeaves(e.as_u(s, recv))))]
         eng.globals["len"] = Fn("len", model=lambda e, s, a, kw, n: [(s, Z("int", z3.Int("n_leaves")))] if a and isinstance(a[0], Opaque) else __import__("pyvc.builtins_model", fromlist=["b_len"]).b_len(e, s, a, kw, n))
